@@ -880,6 +880,61 @@ fn run(ctx: &mut Ctx) {
     unwritable_output(ctx, &mut global);
     unwritable_stderr(ctx, &mut global);
     timezone_vectors(ctx, &mut global);
+    undecodable_names(ctx, &mut global);
+}
+
+/// Names (and a link target) that are not valid UTF-8 — a lone continuation byte first, 0xff last, a
+/// truncated 3-byte sequence, a directory and entries below it — under every primary that reads,
+/// cuts, pads or matches the name: no run ends in a panic (what is printed for such bytes is not
+/// judged here).
+fn undecodable_names(ctx: &mut Ctx, global: &mut u64) {
+    use std::os::unix::ffi::OsStrExt;
+    let base = ctx.sbx.join("un");
+    let _ = crate::sandbox::force_remove(&base);
+    std::fs::create_dir_all(&base).unwrap();
+    let os = |b: &[u8]| std::ffi::OsStr::from_bytes(b).to_os_string();
+    for n in [&b"\x80x"[..], b"ab\xff", b"abc\xe6\x97", b"\xc3", b"\xf0\x9f\x98"] {
+        std::fs::write(base.join(os(n)), b"").unwrap();
+    }
+    std::fs::create_dir(base.join(os(b"d\xfe"))).unwrap();
+    std::fs::write(base.join(os(b"d\xfe")).join("inner"), b"").unwrap();
+    std::fs::write(base.join(os(b"d\xfe")).join(os(b"\xff")), b"").unwrap();
+    std::fs::create_dir(base.join(os(b"e\x80"))).unwrap();
+    std::os::unix::fs::symlink(os(b"t\xff\xfe"), base.join(os(b"l\xff"))).unwrap();
+    std::os::unix::fs::symlink(os(b"ab\xff"), base.join("lok")).unwrap();
+    std::env::set_current_dir(&ctx.sbx).unwrap();
+    let mut exprs: Vec<Vec<String>> = vec![];
+    for a in [vec!["-print"], vec!["-print0"], vec!["-ls"], vec!["-empty"], vec!["-size", "-1k"], vec!["-newer", "un"], vec!["-samefile", "un"], vec!["-exec", "true", "{}", ";"], vec!["-execdir", "true", "{}", "+"], vec!["-exec", "true", "x{}y{}", ";"], vec!["-fprint", "/dev/null"], vec!["-fls", "/dev/null"], vec!["-depth"], vec!["-xtype", "l"], vec!["-lname", "*"], vec!["-ilname", "T?*"]] {
+        exprs.push(a.iter().map(|s| s.to_string()).collect());
+    }
+    for d in "pfhHPdsniUGmyYl".chars() {
+        for spec in ["", "5", "-5", "40"] {
+            exprs.push(vec!["-printf".into(), format!("[%{spec}{d}]\\n")]);
+        }
+    }
+    for prim in ["-name", "-iname", "-path", "-ipath", "-regex", "-iregex"] {
+        for pat in ["*", "?", "*x", "[a-z]*", "??", "*[!a]", ".*", ".*x", "un/.", "un/..*"] {
+            exprs.push(vec![prim.into(), pat.into()]);
+        }
+    }
+    for flag in ["-P", "-L"] {
+        for e in &exprs {
+            *global += 1;
+            if !ctx.mine(*global) {
+                continue;
+            }
+            let mut args: Vec<&str> = vec![flag, "un", "-sorted"];
+            args.extend(e.iter().map(|s| s.as_str()));
+            let got = run_find(&args);
+            ctx.rep.evaluations += 1;
+            ctx.rep.nontrivial += 1;
+            ctx.rep.count("undecodable_name_runs", 1);
+            if let Err(p) = &got.code {
+                ctx.rep.violation(&format!("C11 panic at {} (names that are not valid UTF-8)", ploc(p)), format!("find {:?}: {p}", args), json!({"prop":"C11","argv":args,"undecodable":true}));
+            }
+        }
+    }
+    let _ = crate::sandbox::force_remove(&base);
 }
 
 /// -newerXt dates and the time-printing directives under time zones with daylight saving (POSIX
